@@ -90,14 +90,33 @@ def gen(tier, seed):
             gen_path = os.path.join(fsroot(), "l%d" % i, "target-out", "gen.rs")
             queries.append((kind + "+absolute-include", gen_path, gen_path))
             rng.shuffle(queries)
+        # what the PROCESS has around it must not matter: cargo exports CARGO_MANIFEST_DIR (and more) of the package UNDER TEST to the test
+        # process - not of the package that contains the invocation - and the current directory is that package's root too.  Another
+        # member of the workspace that has a file of the same relative name stands for it
+        other_root = None
+        if i >= len(fixed) and rng.random() < 0.5 and not file_string.startswith("/"):
+            other_root = os.path.join(fsroot(), "l%d" % i, rng.choice(["zz-member-under-test", "a", "member2", "tests"]))
+            decoys = decoys + [os.path.join(other_root, q[1]) for q in queries if not q[1].startswith("/")]
         existing = sorted(set([q[2] for q in queries] + decoys))
         for p in existing:
             lines.append("fs\t" + hx(p))
             meta.append(None)
+        ambient = None
+        if other_root is not None and os.path.normpath(other_root) != os.path.normpath(manifest):
+            ambient = {"CARGO_MANIFEST_DIR": other_root, "PWD": other_root, "CARGO_WORKSPACE_DIR": os.path.dirname(other_root), "cwd": other_root}
+            for k_ in ("CARGO_MANIFEST_DIR", "PWD", "CARGO_WORKSPACE_DIR"):
+                lines.append("setenv\t%s\t%s" % (k_, hx(ambient[k_])))
+                meta.append(None)
+            lines.append("chdir\t" + hx(other_root))
+            meta.append(None)
+        else:
+            for k_ in ("CARGO_MANIFEST_DIR", "PWD", "CARGO_WORKSPACE_DIR"):
+                lines.append("setenv\t%s\t-" % k_)
+                meta.append(None)
         for qkind, qfile, qtrue in queries:
             lines.append("abspath\t%s\t%s" % (hx(manifest), hx(qfile)))
             meta.append({"kind": qkind, "manifest_dir": manifest, "file": qfile, "true_path": qtrue, "existing": existing,
-                         "earlier_in_process": [q[1] for q in queries[:queries.index((qkind, qfile, qtrue))]]})
+                         "earlier_in_process": [q[1] for q in queries[:queries.index((qkind, qfile, qtrue))]], "process_environment": ambient})
     # syntax stream: no files on disk; odd spellings of both strings
     lines.append("fsclear")
     meta.append(None)
@@ -127,13 +146,18 @@ def oracle_for(meta):
         m = meta[line]
         if m is None or m["true_path"] is None:
             return None
-        got = unhx(impl).decode("utf-8")
+        if impl.startswith("REPORT-READS"):
+            got = unhx(impl.split()[1]).decode("utf-8")        # what ErrorReport::new decided to read (not what the pure function says)
+        else:
+            got = unhx(impl).decode("utf-8")
         cands = candidates(m["manifest_dir"], m["file"])
         existing = [c for c in set(cands) if c in m["existing"]]
         if existing == [m["true_path"]] and got != m["true_path"]:
             return ("unambiguous %s layout: manifest dir %s, file!() %s; the invoking file is %s but the report would read %s%s"
                     % (m["kind"], m["manifest_dir"], m["file"], m["true_path"], got,
-                       (" (after reports for %s of the same package in this process)" % ", ".join(m["earlier_in_process"])) if m.get("earlier_in_process") else ""))
+                       ((" (after reports for %s of the same package in this process)" % ", ".join(m["earlier_in_process"])) if m.get("earlier_in_process") else "")
+                       + ((" (the process runs with CARGO_MANIFEST_DIR / PWD / current directory = %s, the package under test)" % m["process_environment"]["cwd"])
+                          if m.get("process_environment") else "")))
         return None
     return oracle
 
@@ -171,7 +195,7 @@ def run(res):
 
     def describe(c):
         m = bypos[c]
-        return {k: m.get(k) for k in ("kind", "manifest_dir", "file", "existing", "earlier_in_process")}
+        return {k: m.get(k) for k in ("kind", "manifest_dir", "file", "existing", "earlier_in_process", "process_environment")}
 
     def nontrivial(c, a):
         m = bypos[c]
@@ -205,11 +229,14 @@ def replay(res, path):
     ok, out = vlib.build_harness("rt")
     if not ok:
         raise vlib.CheckError("harness rt does not build: " + out[-1500:])
+    amb = c.get("process_environment") or {}
     lines = (["fsclear"] + ["fs\t" + hx(p) for p in c["existing"]]
+             + ["setenv\t%s\t%s" % (k, hx(amb[k]) if k in amb else "-") for k in ("CARGO_MANIFEST_DIR", "PWD", "CARGO_WORKSPACE_DIR")]
+             + (["chdir\t" + hx(amb["cwd"])] if amb.get("cwd") else [])
              + ["abspath\t%s\t%s" % (hx(c["manifest_dir"]), hx(f)) for f in (c.get("earlier_in_process") or [])]
              + ["abspath\t%s\t%s" % (hx(c["manifest_dir"]), hx(c["file"]))])
     impl = vlib.run_harness("rt", lines)
-    got = unhx(impl[-1]).decode()
+    got = unhx(impl[-1].split()[1] if impl[-1].startswith("REPORT-READS") else impl[-1]).decode()
     print("resolved:", got)
     cands = [x for x in set(candidates(c["manifest_dir"], c["file"])) if x in c["existing"]]
     bad = len(cands) == 1 and got != cands[0]
